@@ -31,7 +31,13 @@ def handle : Handler := fun j => do
     match Lev.alignment { sub := 1, ins := 1, del := 1 } s t with
     | some al =>
       let (nphn, ncor, nins, ndel, nsub) := Lev.editStats al
-      return ok (jNats [nphn, ncor, nins, ndel, nsub])
+      -- 6th entry: the line-end class of ErrorsSummary.from_lists(ref = t, hyp = s)
+      -- (0 correct, 1 pure_deletions, 2 mixed_deletions, 3 pure_insertions, 4 mixed_insertions, 5 pure_substitutions,
+      --  6 no flag, 7 an exception)
+      let cls : Nat := match Lev.Summary.ending t s with
+        | some .correct => 0 | some .pureDel => 1 | some .mixedDel => 2 | some .pureIns => 3
+        | some .mixedIns => 4 | some .pureSub => 5 | some .nothing => 6 | none => 7
+      return ok (jNats [nphn, ncor, nins, ndel, nsub, cls])
     | none => return err "index-error"
   | "alignsub" =>
     match Lev.alignmentSub (← costs j) s t with
